@@ -74,7 +74,9 @@ def plan(tier, seed):
             for ch in range(4):
                 jobs.append(("order", prog, s, ch, 4, 60000))
     cli = [("assemble", 1, "id"), ("assemble", 2, "id"), ("assemble", 3, "id"), ("assemble", 2, "rev"), ("assemble", 6, "id"),
-           ("assemble", 2, "fail"), ("assemble", 1, "fail")]
+           ("assemble", 2, "fail"), ("assemble", 1, "fail"),
+           # separate processes with different string-hash seeds (set / dict iteration order must not reach the output)
+           ("call-pedigree", 1, "hash1"), ("call-pedigree", 1, "hash2"), ("call-pedigree", 2, "hash3"), ("assemble", 1, "hash2")]
     if tier == "thorough":
         cli += [("call", 1, "id"), ("call", 3, "id"), ("call-exact", 1, "id"), ("call-exact", 2, "id"), ("assemble", 3, "fail")]
     jobs.append(("cli", tuple(cli), seed, 10 ** 7))
@@ -400,7 +402,21 @@ def job_cli(job):
     hv = D.save_vcf(asm_text, "cli_asm.vcf")
     env.quiet()
 
+    # a pedigree with several members that have no BAM (dummy samples), listed in the pedigree file only
+    ped = os.path.join(str(d), "ped_dummy.txt")
+    with open(ped, "w") as f:
+        f.write("FA\t.\t.\nFB\t.\t.\nFC\t.\t.\nFD\t.\t.\nS1\tFA\tFB\nS2\tFC\tFD\nS3\tS1\tS2\n")
+    plo = os.path.join(str(d), "ploidy_dummy.txt")
+    with open(plo, "w") as f:
+        f.write("S1\t4\nS2\t2\nS3\t6\nFA\t4\nFB\t4\nFC\t2\nFD\t2\n")
+    tau = os.path.join(str(d), "tau_dummy.txt")
+    with open(tau, "w") as f:
+        f.write("S1\t2\t2\nS2\t1\t1\nS3\t4\t2\nFA\t2\t2\nFB\t2\t2\nFC\t1\t1\nFD\t1\t1\n")
+
     def argv_for(prog, cores, mode):
+        if prog == "call-pedigree":
+            a = D.call_args(prog, hv, extra=["--cores", str(cores), "--sample-parents", ped, "--gamete-ploidy", tau, "--ploidy", plo])
+            return a
         if prog == "assemble":
             a = D.assemble_args(bed=bed_rev if mode == "rev" else bed_id, extra=["--cores", str(cores)])
             if mode == "fail":
@@ -415,7 +431,10 @@ def job_cli(job):
         cmd = [sys.executable, "-c", "import sys; sys.argv=sys.argv[1:]; from mchap.application.cli import main; main()"] + a
         import signal
 
-        p = subprocess.Popen(cmd, stdout=subprocess.PIPE, stderr=subprocess.PIPE, text=True, env=dict(os.environ), start_new_session=True)
+        envp = dict(os.environ)
+        if mode.startswith("hash"):
+            envp["PYTHONHASHSEED"] = mode[4:]
+        p = subprocess.Popen(cmd, stdout=subprocess.PIPE, stderr=subprocess.PIPE, text=True, env=envp, start_new_session=True)
         try:
             out, err = p.communicate(timeout=900)
         except subprocess.TimeoutExpired:
@@ -462,8 +481,9 @@ def job_cli(job):
                 r.violation(tag, "set of record lines differs from the run with cores=%s/%s" % base[key][2], payload)
             if hdr != base[key][1]:
                 r.violation(tag, "header differs (beyond fileDate/commandline) from the run with cores=%s/%s" % base[key][2], payload)
-        if len(recs) != len(names) or len(set(recs)) != len(recs):
-            r.violation(tag, "%d records for %d loci" % (len(recs), len(names)), payload)
+        n_expected = len(names) if prog == "assemble" else len(stddata.records(asm_text))
+        if len(recs) != n_expected or len(set(recs)) != len(recs):
+            r.violation(tag, "%d records for %d loci" % (len(recs), n_expected), payload)
         if not all(l.endswith("") and l.count("\t") >= 9 for l in recs):
             r.violation(tag, "a record line is not intact", payload)
         r.outcome((tag, len(recs)))
